@@ -74,26 +74,11 @@ pub fn exec_line(line: &str) -> String {
     }
 }
 
-/// ops that run whole key generations / signatures get a watchdog: a change that makes one of them loop for ever must
-/// show up as that op's result ("TIMEOUT"), not as a hung check.  The worker thread is abandoned (the process exits
-/// at the end of main regardless).  VH_OP_TIMEOUT (seconds, default 300).
-fn exec_line_guarded(l: &str) -> String {
-    let slow = ["sk_", "sign", "keygen", "interop", "babai", "first_", "verify"];
-    if !slow.iter().any(|p| l.starts_with(p)) {
-        return exec_line(l);
-    }
-    let secs: u64 = std::env::var("VH_OP_TIMEOUT").ok().and_then(|s| s.parse().ok()).unwrap_or(300);
-    let (tx, rx) = std::sync::mpsc::channel();
-    let line = l.to_string();
-    let _ = std::thread::Builder::new().stack_size(256 << 20).spawn(move || {
-        let _ = tx.send(exec_line(&line));
-    });
-    match rx.recv_timeout(std::time::Duration::from_secs(secs)) {
-        Ok(o) => o,
-        Err(_) => format!("TIMEOUT after {secs}s"),
-    }
-}
-
+/// Execute all ops on up to 16 worker threads, each worker running its share of the ops one after the other ON THE SAME
+/// THREAD (per-thread state that a library keeps across calls — caches, thread-local generators — is exercised the way a
+/// caller would exercise it).  A supervisor per worker watches the progress: an op that does not finish within
+/// VH_OP_TIMEOUT seconds (default 300) is reported as "TIMEOUT", its worker is abandoned (it cannot be killed; the process
+/// exits at the end of main regardless) and a fresh worker continues with the next op.
 fn exec_all(lines: &[String]) -> Vec<String> {
     // VH_WARMUP: an op executed alone before anything else in this process (used by the cross-process comparison of C15 to
     // give the two processes different histories: one starts with Falcon-512 key generation, the other with Falcon-1024)
@@ -102,17 +87,64 @@ fn exec_all(lines: &[String]) -> Vec<String> {
             let _ = exec_line(&w);
         }
     }
-    let nthreads = std::thread::available_parallelism().map(|n| n.get()).unwrap_or(4).min(16);
+    let secs: u64 = std::env::var("VH_OP_TIMEOUT").ok().and_then(|s| s.parse().ok()).unwrap_or(300);
+    // VH_THREADS=1: everything on one worker, in order (replays)
+    let nthreads = std::env::var("VH_THREADS")
+        .ok()
+        .and_then(|s| s.parse::<usize>().ok())
+        .unwrap_or_else(|| std::thread::available_parallelism().map(|n| n.get()).unwrap_or(4).min(16))
+        .max(1);
     let mut out = vec![String::new(); lines.len()];
     let chunk = (lines.len() + nthreads - 1) / nthreads.max(1);
     if chunk == 0 {
         return out;
     }
+    let shared: std::sync::Arc<Vec<String>> = std::sync::Arc::new(lines.to_vec());
     std::thread::scope(|s| {
-        for (ls, os) in lines.chunks(chunk).zip(out.chunks_mut(chunk)) {
+        for (ci, os) in out.chunks_mut(chunk).enumerate() {
+            let shared = shared.clone();
             s.spawn(move || {
-                for (l, o) in ls.iter().zip(os.iter_mut()) {
-                    *o = exec_line_guarded(l);
+                let base = ci * chunk;
+                let len = os.len();
+                let mut pos = 0usize;
+                while pos < len {
+                    let (tx, rx) = std::sync::mpsc::channel::<(usize, String)>();
+                    let sh = shared.clone();
+                    let (from, to) = (base + pos, base + len);
+                    let _ = std::thread::Builder::new().stack_size(256 << 20).spawn(move || {
+                        for k in from..to {
+                            let o = exec_line(&sh[k]);
+                            if tx.send((k, o)).is_err() {
+                                break;
+                            }
+                        }
+                    });
+                    let mut next = pos;
+                    loop {
+                        match rx.recv_timeout(std::time::Duration::from_secs(secs)) {
+                            Ok((k, o)) => {
+                                os[k - base] = o;
+                                next = k - base + 1;
+                                if next == len {
+                                    break;
+                                }
+                            }
+                            Err(std::sync::mpsc::RecvTimeoutError::Timeout) => {
+                                os[next] = format!("TIMEOUT after {secs}s");
+                                next += 1;
+                                break;
+                            }
+                            Err(std::sync::mpsc::RecvTimeoutError::Disconnected) => {
+                                // the worker ended without reporting this op (it cannot panic out of exec_line, but be safe)
+                                if next < len {
+                                    os[next] = "PANIC:worker-ended".to_string();
+                                    next += 1;
+                                }
+                                break;
+                            }
+                        }
+                    }
+                    pos = next;
                 }
             });
         }
